@@ -297,7 +297,9 @@ func verifSvc(lns []verifLn, keys ...KeyConfig) ServiceConfig {
 	return sc
 }
 
-func verifKC(id string, k verifK) KeyConfig { return KeyConfig{ID: id, Cipher: k.cipher, Secret: k.secret} }
+func verifKC(id string, k verifK) KeyConfig {
+	return KeyConfig{ID: id, Cipher: k.cipher, Secret: k.secret}
+}
 
 var (
 	verifL1T = verifLn{true, 9201}
@@ -445,7 +447,6 @@ func VH_C10_reload() {
 	verifReach("C10.done", true)
 }
 
-
 // C11: an address present in the old and the new configuration stays bound across the reload;
 // a connection that arrives around the reload is handled by exactly one generation and a key
 // present in both authenticates; a connection accepted before the reload is still served by
@@ -519,7 +520,6 @@ func VH_C11_retain() {
 	verifReach("C11.done", true)
 }
 
-
 // the overlap window of a reload, taken apart: new configuration started, old one not yet
 // stopped. A connection arriving then is handled exactly once, authenticates with a key present
 // in both, and the shared sockets are neither closed nor re-created at any point.
@@ -558,7 +558,6 @@ func VH_C11_overlap() {
 	verifQuiesce()
 	verifReach("C11.overlap.done", true)
 }
-
 
 // sends handshake number n of key k to 127.0.0.1:port; returns (served, refused-as-probe)
 func verifPresent(sm *verifSvcMetrics, port int, k verifK, n int) (bool, bool) {
@@ -615,7 +614,6 @@ func VH_C07_process_wide() {
 	verifReach("C07.wide.rotated", fillers >= history)
 }
 
-
 // C09: two services whose listener addresses are different spellings of one socket address.
 // Either the configuration is refused as a whole, or the services stay separate; in no case may
 // a key of one service authenticate on the other's listener.
@@ -632,17 +630,17 @@ func VH_C09_same_socket_two_spellings() {
 	cfg := Config{Services: []ServiceConfig{a, b}}
 	err := verifLoadCfg(s, &verifCfgStep{cfg: cfg})
 	for rep := 0; rep < verifRepeat(6); rep++ { // natively which service accepts next is a matter of timing
-	for _, k := range verifKeys {
-		up, auth, id := verifProbeTCP(sm, 9201, k)
-		if err != nil {
-			verifAssert("C09.spellings.refused-config-not-serving", !up)
-			continue
+		for _, k := range verifKeys {
+			up, auth, id := verifProbeTCP(sm, 9201, k)
+			if err != nil {
+				verifAssert("C09.spellings.refused-config-not-serving", !up)
+				continue
+			}
+			if up && auth {
+				// on 127.0.0.1:9201 (service a's listener as written) only service a's key may work
+				verifAssert("C09.spellings.no-cross-service-authentication", id == "a-1" && k == verifKeys[0])
+			}
 		}
-		if up && auth {
-			// on 127.0.0.1:9201 (service a's listener as written) only service a's key may work
-			verifAssert("C09.spellings.no-cross-service-authentication", id == "a-1" && k == verifKeys[0])
-		}
-	}
 	}
 	if err == nil {
 		verifAssert("C09.spellings.stop-ok", s.Stop() == nil)
